@@ -156,8 +156,8 @@ PROPS["C02"] = {
     "witness_always": ["texlang_macro"],
     "witness_bound": {"texlang_macro": "real VM vs an executable transcription of TeX's macro_call: prefix {none, one token} x parameters {undelimited, delimited by 1-2 tokens, trailing #{} x 1-2 parameters x 10 argument shapes (empty, token, group, several groups, nested groups, leading spaces) x 3-4 replacement texts, plus 3 to 9 parameters (mixed kinds, every parameter used, reversed and repeated, with and without a trailing #{) = 4618 definitions+calls, tokens after the call included"},
     "unverified_callers": [
-        "PROVED: should_trim_outer_braces_if_present, parse_delimited_argument, parse_undelimited_argument (+ SpacesUnexpanded::parse_impl, finish_parsing_balanced_tokens), remove_tokens_from_stream, perform_replacement, the KMP matcher. def.rs parse_prefix_and_parameters (== TeX 474-476 incl. #{ and the two error recoveries, never more than nine parameters). BOUNDED (witness driver, not proof): Macro::call's own loop (argument index bookkeeping), Parameter::parse_argument dispatch, def.rs parse_replacement_text (a local closure over &mut Vec: outside Verus)",
-        "## in replacement texts, more than two parameters, \\long/\\outer, the VM expansion loop",
+        "PROVED: should_trim_outer_braces_if_present, parse_delimited_argument, parse_undelimited_argument (+ SpacesUnexpanded::parse_impl, finish_parsing_balanced_tokens), remove_tokens_from_stream, perform_replacement, the KMP matcher. def.rs parse_prefix_and_parameters (== TeX 474-476 incl. #{ and the two error recoveries, never more than nine parameters) and parse_replacement_text (== TeX 477-479: ## -> one #, #k only for k <= number of parameters, illegal parameter number = one error + the # kept + the offending token read again, nested braces, the brace of a trailing #{ appended; its local closure `push` is hoisted to a function by rule R22 and proved; Vec::last_mut is a trusted stub). BOUNDED (witness driver, not proof): Macro::call's own loop (argument index bookkeeping), Parameter::parse_argument dispatch, the reversal of every token run after parse_replacement_text (iter_mut loop in the \\def primitive)",
+        "\\long/\\outer, the VM expansion loop",
     ],
     "assumptions": [],
 }
